@@ -4,24 +4,42 @@ import concurrent.futures as cf
 from .. import common, corpus, tlc
 
 
+# actions the models themselves prove unreachable (so a zero count is the expected outcome)
+UNREACHABLE_BY_DESIGN = {"RepopulateImpl.PickPopLast",
+                         "ParLoop.ReadAcc", "ParLoop.WriteAcc",
+                         "ModelHeap.RawSetLabels", "ModelHeap.RawShallowCopy"}      # only in the deliberately broken variant
+
+
 def model_checks(rep, jobs):
     """jobs: list of (module, cfgfile).  All must pass; a violated invariant is a violation of the
-    design-level model (reported), anything else is a machinery failure."""
+    design-level model (reported), anything else is a machinery failure.  TLC runs with -coverage and
+    an action that is never taken in ANY config of its module is a machinery failure (anti-vacuity)."""
     if not jobs:
         return
+    taken = {}
     with cf.ThreadPoolExecutor(max_workers=len(jobs)) as ex:
-        futs = [ex.submit(tlc.run, m, c, workers=max(2, common.NCPU // len(jobs))) for m, c in jobs]
+        futs = [ex.submit(tlc.run, m, c, workers=max(2, common.NCPU // len(jobs)), coverage=True, heap="6g") for m, c in jobs]
         for f in futs:
             res = f.result()
             tlc.need_ok(res)
             rep.add_tlc(res)
+            for key, (d, g) in res.coverage.items():
+                taken[key] = max(taken.get(key, 0), g)
             if res.violated:
                 rep.violation("model:" + res.violated, {"tlc": res.trace[:6000], "cfg": res.label},
                               "design-level model violates the property")
+    never = sorted(k for k, g in taken.items() if g == 0 and k not in UNREACHABLE_BY_DESIGN
+                   and not k.endswith(".Init"))
+    rep.notes.setdefault("model_actions_covered", 0)
+    rep.notes["model_actions_covered"] += sum(1 for g in taken.values() if g > 0)
+    if never:
+        raise common.MachineryError(f"model actions never taken (vacuous model run): {never}")
 
 
-TICC_MODELS = {"quick": [("MC_TiccLoop", "MC_TiccLoop_small.cfg"), ("MC_TiccLoop", "MC_TiccLoop_limits.cfg")],
+TICC_MODELS = {"quick": [("MC_TiccLoop", "MC_TiccLoop_small.cfg"), ("MC_TiccLoop", "MC_TiccLoop_limits.cfg"),
+                         ("MC_TiccLoop", "MC_TiccLoop_nodonor.cfg")],
                "thorough": [("MC_TiccLoop", "MC_TiccLoop_small.cfg"), ("MC_TiccLoop", "MC_TiccLoop_limits.cfg"),
+                            ("MC_TiccLoop", "MC_TiccLoop_nodonor.cfg"),
                             ("MC_TiccLoop", "MC_TiccLoop_m2.cfg"), ("MC_TiccLoop", "MC_TiccLoop_k3.cfg")]}
 
 
